@@ -58,7 +58,19 @@ def plan(tier):
                 src[cfg].append(shim(C06._ret_short(oi), sname, oi.params(), C06.tagged_call(oi, tag)))
                 heavy = oi.op in ('multiply', 'divide') and max(t.bits for t in oi.ts) >= 32
                 if heavy and oi.op == 'multiply' and cfg.startswith('clang'):
-                    continue      # portable multiply predicate vs the final mul nsw at >= 32 bits: no SAT answer within the budgets (see C06 hardness), not claimed
+                    # portable multiply predicate vs the final mul nsw at >= 32 bits: no SAT answer within the budgets (see C06 hardness).
+                    # What IS within reach: the two overflow predicates on their own are total (their divisions max()/rhs, lowest()/rhs
+                    # never divide by zero or overflow) -- no multiplier equivalence involved; one job per predicate, once per configuration
+                    if tag == 'sat':
+                        for pol in ('pos', 'neg'):
+                            s2 = 'vp_isov_%s_%s_%s' % (oi.op, pol, oi.tag)
+                            src[cfg].append(shim('bool', s2, oi.params(), 'return %s;' % oi.callexpr(
+                                'cnl::_impl::is_overflow<cnl::_impl::%s, %s>{}' % (C06.OPCLS[oi.op], C06.POL[pol]))))
+                            jobs.append(Job('%s.%s.%s.predicate_%s.%s' % (PROP, cfg, oi.op, pol, oi.tag), 'C07_' + cfg, C06.isov_pattern(oi, pol),
+                                            Contract(requires=[], ensures=[], assigns=[], note='the overflow test itself is total (every UB obligation inside the predicate)'),
+                                            shim=s2, shim_types=oi.types, oracle=total_oracle(oi), prop=PROP, solvers=('minisat', 'cadical'), timeout=300, layer=0))
+                            n += 1
+                    continue
                 jobs.append(Job('%s.%s.%s.%s.%s' % (PROP, cfg, oi.op, tag, oi.tag), 'C07_' + cfg,
                                 C06.custop_pattern(oi, tag),
                                 Contract(requires=oi.requires(C06.ptr_args(oi)), ensures=[], assigns=[],
@@ -70,6 +82,6 @@ def plan(tier):
     kernels = [Kernel('C07_' + c, ''.join(src[c]), f, c) for c, f in cfgs.items()]
     meta = {'instantiations': n,
             'explanation': 'whole tagged operator verified with all callees inlined; every UB flag of the clang -O0 IR is a named obligation',
-            'not_applicable_parts': ['portable-path multiply with an operand of 32 bits or more: "predicates say no overflow => mul nsw defined" is a multiplier/divider equivalence beyond the SAT budgets', 'floating-point sources of convert are covered by C06/C09 float jobs only'],
+            'not_applicable_parts': ['portable-path multiply with an operand of 32 bits or more: the WHOLE operator ("predicates say no overflow => mul nsw defined") is a multiplier/divider equivalence beyond the SAT budgets; only the totality of the two predicates themselves is proved for these', 'floating-point sources of convert are covered by C06/C09 float jobs only'],
             'assumptions': []}
     return {'kernels': kernels, 'jobs': jobs, 'meta': meta}
